@@ -107,6 +107,7 @@ def cases(tier, seed):
     # call (1, 2, a block boundary +- 1)
     out.append({"id": "lens-point-counts", "kind": "lenscounts"})
     out.append({"id": "subset-forms", "kind": "subsetforms"})
+    out.append({"id": "large-detector", "kind": "large"})
     # a detector so large / far that part of it is beyond kr = 1000: crops
     # and point lists that hold only distant pixels
     out.append({"id": "grid-far:mie", "kind": "gridfar"})
@@ -757,6 +758,55 @@ def _run_history(case, ck):
     return digest(*outs)
 
 
+def _run_large(case, ck):
+    """a detector of more than 2**14 pixels: scattering matrix, field and
+    hologram at a pixel are those of the same location in a crop, in a short
+    list of points and in a sparse subset"""
+    import holopy as hp
+    from holopy.scattering import calc_scat_matrix, calc_field, calc_holo
+    from holopy.core.metadata import make_subset_data
+    scat, _ = _theory("mie")
+    big = hp.detector_grid((131, 130), 0.05)
+    crop = big.isel(x=slice(0, 100), y=slice(0, 90))
+    ix = np.array([0, 7, 50, 99, 130, 64, 12])
+    iy = np.array([0, 88, 33, 2, 129, 64, 101])
+    pts = hp.detector_points(x=big.x.values[ix], y=big.y.values[iy], z=0.0)
+    fps = []
+    for fname, fn in (("calc_scat_matrix", calc_scat_matrix),
+                      ("calc_field", calc_field), ("calc_holo", calc_holo)):
+        kw = dict(OPT)
+        if fname == "calc_scat_matrix":
+            kw.pop("illum_polarization")
+        with warnings.catch_warnings():
+            warnings.simplefilter("ignore")
+            B = fn(big, scat, theory=_theory("mie")[1], **kw)
+            C = fn(crop, scat, theory=_theory("mie")[1], **kw)
+            P = fn(pts, scat, theory=_theory("mie")[1], **kw)
+        ck.trans += 3
+
+        def at(R, i, j):
+            if "flat" in R.dims:
+                R = R.unstack("flat")
+            if "z" in R.dims:
+                R = R.isel(z=0)
+            return np.asarray(R.isel(x=i, y=j).values).ravel()
+        worst = 0.0
+        for k, (i, j) in enumerate(zip(ix, iy)):
+            b = at(B, int(i), int(j))
+            p = np.asarray(P.isel(point=k).values).ravel()
+            scale = float(np.abs(b).max()) or 1.0
+            worst = max(worst, float(np.abs(b - p).max() / scale))
+            if i < 100 and j < 90:
+                c = at(C, int(i), int(j))
+                worst = max(worst, float(np.abs(b - c).max() / scale))
+        ck.metric("large-detector:" + fname, worst)
+        ck.true("large-detector", worst == 0.0, "%s on a 131x130 detector "
+                "differs at the same locations from a crop / a list of 7 "
+                "points by %.3g (relative)" % (fname, worst))
+        fps.append(fp_values(np.asarray(P.values)))
+    return digest(*fps)
+
+
 def _run_subsetforms(case, ck):
     """subsets of a volume (several z planes), of a subset, and of a list of
     points: distinct locations drawn from ALL of them, values and
@@ -777,6 +827,20 @@ def _run_subsetforms(case, ck):
                          ("list of points", pts, 12)):
         full = _holo(det, scat, _theory("mie")[1])
         ck.trans += 1
+        if name == "volume of 3 planes":
+            # every plane of the volume is the hologram of that plane alone
+            for zz in [float(v) for v in vol.z.values]:
+                one = _holo(a.assign_coords(z=a.z * 0 + zz), scat,
+                            _theory("mie")[1])
+                ck.trans += 1
+                g = full.sel(z=zz).transpose("x", "y").values
+                h = one.isel(z=0).transpose("x", "y").values \
+                    if "z" in one.dims else one.transpose("x", "y").values
+                ck.true("volume-plane", g.shape == h.shape and
+                        bool(np.array_equal(g, h)), "plane z = %g of a "
+                        "3-plane volume differs from the hologram of that "
+                        "plane alone by %.3g" % (zz, float(np.abs(
+                            g - h).max()) if g.shape == h.shape else -1))
         ff = flat(full) if "flat" not in full.dims and \
             "point" not in full.dims else full
         dim = "point" if "point" in ff.dims else "flat"
@@ -835,7 +899,7 @@ def _run_subsetforms(case, ck):
 def run_case(case):
     ck = Checker()
     fp = {"grid": _run_grid, "scripted": _run_scripted,
-          "subsetforms": _run_subsetforms,
+          "subsetforms": _run_subsetforms, "large": _run_large,
           "mixedz": _run_mixedz, "biglarge": _run_biglarge,
           "gridfar": _run_gridfar, "lenscounts": _run_lenscounts,
           "coordforms": _run_coordforms,
